@@ -135,13 +135,20 @@ theorem fenceFindFrom_noFence (s : Str) (h : Fenced.noFenceLine s = true) : Fenc
   simp only [decide_true, Bool.true_or, List.drop_zero]
   exact Fenced.fenceScan_none_of_lines true 0 s (by simpa [Fenced.noFenceLine_eq] using h)
 
-/-- `FencedBlockPreprocessor.run` on a text without a fence at a line start: nothing happens -/
-theorem fencedRunA_noFence (s : Str) (h : Fenced.noFenceLine s = true) : Fenced.fencedRunA s = .ok s [] := by
-  simp only [Fenced.fencedRunA, Fenced.fencedLoopA, fenceFindFrom_noFence s h]
+/-- `FencedBlockPreprocessor.run` on a text in which the pattern finds nothing: nothing happens -/
+theorem fencedRunA_noFind (s : Str) (h : Fenced.fenceFindFrom s 0 = none) : Fenced.fencedRunA s = .ok s [] := by
+  simp only [Fenced.fencedRunA, Fenced.fencedLoopA, h]
+
+theorem fencedHasConfig_noFind (s : Str) (h : Fenced.fenceFindFrom s 0 = none) :
+    fencedHasConfig (s.length + 1) s 0 0 = false := by
+  simp only [fencedHasConfig, h]
+
+theorem fencedRunA_noFence (s : Str) (h : Fenced.noFenceLine s = true) : Fenced.fencedRunA s = .ok s [] :=
+  fencedRunA_noFind s (fenceFindFrom_noFence s h)
 
 theorem fencedHasConfig_noFence (s : Str) (h : Fenced.noFenceLine s = true) :
-    fencedHasConfig (s.length + 1) s 0 0 = false := by
-  simp only [fencedHasConfig, fenceFindFrom_noFence s h]
+    fencedHasConfig (s.length + 1) s 0 0 = false :=
+  fencedHasConfig_noFind s (fenceFindFrom_noFence s h)
 
 /-- no line of the source of an indented code block starts with a fence: every line is empty or indented -/
 theorem noFenceLine_codeSource (tab : Nat) (htab : 0 < tab) (first : List Str) (more : List (Nat × List Str))
@@ -149,15 +156,15 @@ theorem noFenceLine_codeSource (tab : Nat) (htab : 0 < tab) (first : List Str) (
     Fenced.noFenceLine (codeSource tab first more ++ ['\n', '\n']) = true :=
   noFenceLine_of_heads _ (lineHeads_codeSource isFenceCh (by decide) (by decide) tab htab first more h1 h)
 
-/-- the preprocessors on a text without fences and without open character references -/
+/-- the preprocessors on a text in which the fence pattern finds nothing, without open character references -/
 theorem prepareX_plain (x : Exts) (tab : Nat) (fmt : Ser.Fmt) (src t : Str)
     (hnorm : Normalize.normalize tab src = t) (hadm : (x.admonition && admNonAscii t) = false)
-    (hf : Fenced.noFenceLine t = true) (hrefs : refsClosed t = true) :
+    (hf : Fenced.fenceFindFrom t 0 = none) (hrefs : refsClosed t = true) :
     prepareX x { tab := tab, fmt := fmt } src = .ok (t, []) := by
   unfold prepareX
   simp only
   rw [hnorm, hadm]
-  simp only [Bool.false_eq_true, if_false, fencedRunA_noFence t hf, fencedHasConfig_noFence t hf, Bool.and_false,
+  simp only [Bool.false_eq_true, if_false, fencedRunA_noFind t hf, fencedHasConfig_noFind t hf, Bool.and_false,
     extract_id t hrefs, ite_self]
 
 /-! ### G. `Markdown.convert` with extensions on an indented code block -/
@@ -216,7 +223,7 @@ theorem convertX_codeBlock (x : Exts) (tab : Nat) (htab : 0 < tab) (fmt : Ser.Fm
   have hprep : prepareX x { tab := tab, fmt := fmt } (codeSource tab first more) =
       .ok (codeSource tab first more ++ ['\n', '\n'], []) :=
     prepareX_plain x tab fmt _ _ hnorm hadm
-      (noFenceLine_codeSource tab htab first more i1.ok (fun er her => (hm er her).1.ok))
+      (fenceFindFrom_noFence _ (noFenceLine_codeSource tab htab first more i1.ok (fun er her => (hm er her).1.ok)))
       (refsClosed_codeSource tab first more r1 (fun er her => (hm er her).2.1))
   have hmk : ∀ pc : Block.Refs → Str → Option (Node × Block.Refs),
       FootnotesTree.makeDiv pc fnCount (BlockExt.footnotesOf []) [] = .ok (none, []) := fun _ => rfl
